@@ -6,7 +6,7 @@
   Manager.UpdateConfig as written.  The correspondence run (harness component `ugm`) steps this model from every
   state the real manager reaches and compares answers and complete states.
 -/
-import YkProofs.UgmMAcct
+import YkProofs.UgmReload5
 namespace Yk.C05
 open Yk Yk.Res Yk.Ugm
 
@@ -135,6 +135,35 @@ theorem limits_follow_config_first_load (c : Cfg) (hc : ∀ q ∈ c, q.1 ≠ [])
     (∀ g p, g ≠ "" → inForceGroup (updateConfig {} c) g p = configuredGroup c g p) :=
   first_load c hc
 
+/-- AFTER A RELOAD.  `Synced m`: the trackers of `m` are in step with its active configuration (every queue tracker holds no
+    limit, the wildcard limit of its queue, or the limit its user / group is named with there; named queues are reachable
+    from the root; the empty manager is synced, see `synced_first_load`).  For ANY synced manager and ANY new configuration
+    that passed the validator (`properCfgB`), under decidable hypotheses on the active maps of the manager and the maps the
+    new configuration is parsed into —
+      * `noWildcardDropBesideNamed` (excludes F17): no queue loses its wildcard user limit while users are named on it in
+        both configurations;
+      * `noDropAboveKept` for users and for groups (excludes F18 / group-lost): nobody loses the limit of a queue and keeps
+        or gets a limit in the subtree of that queue;
+      * `singleDrop` for users and for groups: at most one queue per user / group loses its limit (one reset per tracker:
+        the iteration order of the old limit map cannot matter) —
+    the limits in force after UpdateConfig are exactly those of the new configuration, for every user, group and queue, and
+    the manager is synced again: the statement chains over any number of such reloads. -/
+theorem limits_follow_config_reload_partial (m : Mgr) (c : Cfg) (hs : Synced m) (hc : properCfgB c = true)
+    (h17 : noWildcardDropBesideNamed m (parseCfg c) = true)
+    (h18u : noDropAboveKept m.userLimits (parseCfg c).userLimits = true)
+    (h18g : noDropAboveKept m.groupLimits (parseCfg c).groupLimits = true)
+    (h1u : singleDrop m.userLimits (parseCfg c).userLimits = true)
+    (h1g : singleDrop m.groupLimits (parseCfg c).groupLimits = true) :
+    (∀ u p, u ≠ "" → u ≠ "*" → inForceUser (updateConfig m c) u p = configuredUser c u p) ∧
+    (∀ g p, g ≠ "" → inForceGroup (updateConfig m c) g p = configuredGroup c g p) ∧
+    Synced (updateConfig m c) :=
+  reload_partial m c hs hc h17 h18u h18g h1u h1g
+
+/-- The first load of a validated configuration leaves the manager synced (it is the reload of the empty manager, whose
+    hypotheses hold trivially), so the partial statement applies to the second configuration, the third, ... -/
+theorem synced_after_first_load (c : Cfg) (hc : properCfgB c = true) : Synced (updateConfig {} c) :=
+  synced_first_load c hc
+
 private def lim (r : Res) (a : Nat) (us gs : List String) : LimitEntry := { users := us, groups := gs, maxRes := some r, maxApps := a }
 private def R : Path := ["root"]
 private def RA : Path := ["root", "a"]
@@ -184,13 +213,106 @@ theorem limits_follow_config_refuted : ¬ LimitsFollowConfig := by
   have h1 := (h namedLost [(R, []), (RA, []), (RAB, [lim [("mem", 3)] 0 ["u1"] []])] (by decide)).1 "u1" RAB (by decide) (by decide)
   exact absurd h1 (by decide)
 
+/-! ### the hypotheses of the partial reload statement: satisfiable, and each one needed -/
+
+/-- A real pair of configurations that meets every hypothesis and changes limits: the named limit of u1 on root and the
+    wildcard limit of root change, u2 loses its limit on root.a, u3 gets one there, the group limit of g1 changes. -/
+def reloadOk1 : Cfg := [(R, [lim [("mem", 9)] 0 ["u1"] ["g1"], lim [("mem", 5)] 2 ["*"] []]), (RA, [lim [("mem", 3)] 0 ["u2"] []])]
+def reloadOk2 : Cfg := [(R, [lim [("mem", 7)] 1 ["u1"] ["g1"], lim [("mem", 4)] 0 ["*"] []]), (RA, [lim [("mem", 2)] 0 ["u3"] []])]
+
+theorem reload_hypotheses_satisfiable :
+    properCfgB reloadOk1 = true ∧ properCfgB reloadOk2 = true ∧
+    noWildcardDropBesideNamed (updateConfig {} reloadOk1) (parseCfg reloadOk2) = true ∧
+    noDropAboveKept (updateConfig {} reloadOk1).userLimits (parseCfg reloadOk2).userLimits = true ∧
+    noDropAboveKept (updateConfig {} reloadOk1).groupLimits (parseCfg reloadOk2).groupLimits = true ∧
+    singleDrop (updateConfig {} reloadOk1).userLimits (parseCfg reloadOk2).userLimits = true ∧
+    singleDrop (updateConfig {} reloadOk1).groupLimits (parseCfg reloadOk2).groupLimits = true ∧
+    -- limits do change
+    inForceUser (updateConfig {} reloadOk1) "u1" R = (some [("mem", 9)], 0) ∧
+    inForceUser (updateConfig (updateConfig {} reloadOk1) reloadOk2) "u1" R = (some [("mem", 7)], 1) ∧
+    inForceUser (updateConfig {} reloadOk1) "u2" RA = (some [("mem", 3)], 0) ∧
+    inForceUser (updateConfig (updateConfig {} reloadOk1) reloadOk2) "u2" RA = (none, 0) ∧
+    inForceUser (updateConfig (updateConfig {} reloadOk1) reloadOk2) "u2" R = (some [("mem", 4)], 0) := by
+  refine ⟨by decide, by decide, by decide, by decide, by decide, by decide, by decide, by decide, by decide, by decide, by decide, by decide⟩
+
+/-- the corollary for that pair, from the theorems (not by evaluation) -/
+example : ∀ u p, u ≠ "" → u ≠ "*" →
+    inForceUser (updateConfig (updateConfig {} reloadOk1) reloadOk2) u p = configuredUser reloadOk2 u p :=
+  (limits_follow_config_reload_partial _ reloadOk2 (synced_after_first_load reloadOk1 (by decide)) (by decide)
+    (by decide) (by decide) (by decide) (by decide) (by decide)).1
+
+/-- A wildcard limit may be dropped when the queue names nobody in one of the configurations (the hypothesis excludes only
+    the F17 situation). -/
+example : noWildcardDropBesideNamed (updateConfig {} [(R, [lim [("mem", 5)] 2 ["*"] []])]) (parseCfg [(R, [lim [("mem", 3)] 0 ["u1"] []])]) = true := by
+  decide
+
+/-- NECESSITY.  The F17 witness violates `noWildcardDropBesideNamed` and nothing else ... -/
+theorem stale_wildcard_violates_only_h17 :
+    let c1 : Cfg := [(R, [lim [("mem", 9)] 0 ["u2"] [], lim [("mem", 5)] 2 ["*"] []]), (RA, [lim [("mem", 3)] 0 ["u1"] []])]
+    let c2 : Cfg := [(R, [lim [("mem", 9)] 0 ["u3"] []]), (RA, [lim [("mem", 3)] 0 ["u1"] []])]
+    properCfgB c1 = true ∧ properCfgB c2 = true ∧
+    noWildcardDropBesideNamed (updateConfig {} c1) (parseCfg c2) = false ∧
+    noDropAboveKept (updateConfig {} c1).userLimits (parseCfg c2).userLimits = true ∧
+    noDropAboveKept (updateConfig {} c1).groupLimits (parseCfg c2).groupLimits = true ∧
+    singleDrop (updateConfig {} c1).userLimits (parseCfg c2).userLimits = true ∧
+    singleDrop (updateConfig {} c1).groupLimits (parseCfg c2).groupLimits = true ∧
+    inForceUser (updateConfig (updateConfig {} c1) c2) "u1" R ≠ configuredUser c2 "u1" R := by
+  refine ⟨by decide, by decide, by decide, by decide, by decide, by decide, by decide, by decide⟩
+
+/-- ... the F18 witness violates `noDropAboveKept` for users and nothing else ... -/
+theorem named_lost_violates_only_h18 :
+    let c1 : Cfg := [(R, []), (RA, [lim [("mem", 5)] 0 ["u1"] []]), (RAB, [lim [("mem", 3)] 0 ["u1"] []])]
+    let c2 : Cfg := [(R, []), (RA, []), (RAB, [lim [("mem", 3)] 0 ["u1"] []])]
+    properCfgB c1 = true ∧ properCfgB c2 = true ∧
+    noWildcardDropBesideNamed (updateConfig {} c1) (parseCfg c2) = true ∧
+    noDropAboveKept (updateConfig {} c1).userLimits (parseCfg c2).userLimits = false ∧
+    noDropAboveKept (updateConfig {} c1).groupLimits (parseCfg c2).groupLimits = true ∧
+    singleDrop (updateConfig {} c1).userLimits (parseCfg c2).userLimits = true ∧
+    singleDrop (updateConfig {} c1).groupLimits (parseCfg c2).groupLimits = true ∧
+    inForceUser (updateConfig (updateConfig {} c1) c2) "u1" RAB ≠ configuredUser c2 "u1" RAB := by
+  refine ⟨by decide, by decide, by decide, by decide, by decide, by decide, by decide, by decide⟩
+
+/-- ... and the group-lost witness violates `noDropAboveKept` for groups and nothing else.  (`singleDrop` is not shown
+    necessary: it makes the resets of clearEarlierSetLimits independent of Go's map order in the proof; the small-scope
+    search of the model finds no limit violation that needs it.  Its absence does matter for links and usage:
+    `reload_outcome_depends_on_map_order`.) -/
+theorem group_lost_violates_only_h18g :
+    let c1 : Cfg := [(R, []), (RA, [lim [("mem", 5)] 0 [] ["g1"]]), (RAB, [lim [("mem", 3)] 0 [] ["g1"]])]
+    let c2 : Cfg := [(R, []), (RA, []), (RAB, [lim [("mem", 3)] 0 [] ["g1"]])]
+    properCfgB c1 = true ∧ properCfgB c2 = true ∧
+    noWildcardDropBesideNamed (updateConfig {} c1) (parseCfg c2) = true ∧
+    noDropAboveKept (updateConfig {} c1).userLimits (parseCfg c2).userLimits = true ∧
+    noDropAboveKept (updateConfig {} c1).groupLimits (parseCfg c2).groupLimits = false ∧
+    singleDrop (updateConfig {} c1).userLimits (parseCfg c2).userLimits = true ∧
+    singleDrop (updateConfig {} c1).groupLimits (parseCfg c2).groupLimits = true ∧
+    inForceGroup (updateConfig (updateConfig {} c1) c2) "g1" RAB ≠ configuredGroup c2 "g1" RAB := by
+  refine ⟨by decide, by decide, by decide, by decide, by decide, by decide, by decide, by decide⟩
+
 /-! ## Group accounting across reloads -/
 
 /-- THE STATEMENT for groups across reloads: the usage a group tracker holds on a queue is the sum of the live allocations
     of the applications linked to the group. -/
 def GroupUsageIsSum (m : Mgr) (live : List (String × Alloc)) : Prop :=
-  ∀ g gt, aget m.groups g = some gt → ∀ p k,
-    usageAt gt.qt p k = sumLive ((live.filter (fun e => groupForApp m e.1 e.2.app == g)).map (·.2)) p k
+  ∀ g gt, g ≠ "" → aget m.groups g = some gt → ∀ p k, usageAt gt.qt p k = sumLive (groupAllocs m live g) p k
+
+/-- It holds for every manager history WITHOUT reloads that starts from the first load of a proper configuration (every
+    queue path starts at the root and every `limits:` entry sets a limit, as configs.Validate demands): Headroom, CanRunApp,
+    IncreaseTrackedResource and DecreaseTrackedResource (removeApp included) in any order under the callers' contract
+    `gHistOk` (= `mHistOk`, application ids unique across users, no reload), with the application → group links exactly
+    as ensureGroupInternal resolves them.  Along the way: every link points to an existing group tracker, and a group
+    tracker of the configuration is never removed. -/
+theorem group_usage_is_sum_partial (c : Cfg) (hc : ProperCfg c) (ops : List Op)
+    (hok : gHistOk (updateConfig {} c, []) ops) :
+    GroupUsageIsSum (ops.foldl mStep (updateConfig {} c, [])).1 (ops.foldl mStep (updateConfig {} c, [])).2 :=
+  fun g gt hne hgt => ((ginv_run ops (updateConfig {} c, []) (ginv_first_load c hc) hok).trees g gt hne hgt).sum
+
+/-- The same from ANY state that meets the group invariant `GInv` (user accounting, links resolved to existing trackers,
+    every resolvable group has an anchored tracker, group usage = sum): histories without reloads keep it. -/
+theorem group_usage_is_sum_from (m0 : Mgr) (L0 : List (String × Alloc)) (h0 : GInv m0 L0) (ops : List Op)
+    (hok : gHistOk (m0, L0) ops) :
+    GInv (ops.foldl mStep (m0, L0)).1 (ops.foldl mStep (m0, L0)).2 ∧
+    GroupUsageIsSum (ops.foldl mStep (m0, L0)).1 (ops.foldl mStep (m0, L0)).2 :=
+  ⟨ginv_run ops (m0, L0) h0 hok, fun g gt hne hgt => ((ginv_run ops (m0, L0) h0 hok).trees g gt hne hgt).sum⟩
 
 /-- g1 limited on root and root.a; app1 (user u1, group g1) holds mem 3 in root.b, app2 holds mem 2 in root.a.  A reload
     drops the root.a limit: decreaseTrackedResourceUsageDownwards wipes usage and running applications of g1 on root.a AND
@@ -213,7 +335,7 @@ theorem group_usage_lost_on_reload :
     | none => exact absurd hh (by decide)
     | some gt => exact ⟨gt, rfl⟩
   obtain ⟨gt, hgt⟩ := hg
-  have h1 := h "g1" gt hgt R "mem"
+  have h1 := h "g1" gt (by decide) hgt R "mem"
   have h2 : (match aget (run {} groupReset).groups "g1" with | some gt => usageAt gt.qt R "mem" | none => -1) = 0 := by decide
   rw [hgt] at h2
   simp only at h2
@@ -257,6 +379,23 @@ example : mHistOk ({}, [])
     [.conf [(R, [lim [("mem", 9)] 0 ["u1"] []])], .inc RA "app1" [("mem", 2)] "u1" [], .conf [(R, [])],
      .dec RA "app1" [("mem", 2)] "u1" true] := by
   refine ⟨trivial, ⟨by decide, by decide, by decide, by decide⟩, trivial, ⟨?_, ?_⟩, trivial⟩
+  · show (("u1", ⟨"app1", RA, [("mem", 2)]⟩) : String × Alloc) ∈ [(("u1", ⟨"app1", RA, [("mem", 2)]⟩) : String × Alloc)]
+    exact List.mem_cons_self
+  · intro _ b hb
+    have : userAllocs (List.erase [(("u1", ⟨"app1", RA, [("mem", 2)]⟩) : String × Alloc)] ("u1", ⟨"app1", RA, [("mem", 2)]⟩)) "u1" = [] := by decide
+    change b ∈ userAllocs (List.erase [(("u1", ⟨"app1", RA, [("mem", 2)]⟩) : String × Alloc)] ("u1", ⟨"app1", RA, [("mem", 2)]⟩)) "u1" at hb
+    rw [this] at hb; cases hb
+
+/-- a proper configuration with a group limit, and a history without reload that meets the group contract -/
+example : ProperCfg [(R, [lim [("mem", 20)] 0 [] ["g1"]]), (RA, [lim [("mem", 10)] 0 [] ["g1"]]), (RB, [])] := by
+  intro q hq
+  simp only [List.mem_cons, List.not_mem_nil, or_false] at hq
+  rcases hq with h | h | h <;> subst h <;> exact ⟨by decide, by decide⟩
+example : groupForApp (run (updateConfig {} [(R, [lim [("mem", 20)] 0 [] ["g1"]]), (RA, [lim [("mem", 10)] 0 [] ["g1"]]), (RB, [])])
+    [.inc RB "app1" [("mem", 3)] "u1" ["g1"]]) "u1" "app1" = "g1" := by decide
+example : gHistOk (updateConfig {} [(R, [lim [("mem", 20)] 0 [] ["g1"]])], [])
+    [.inc RA "app1" [("mem", 2)] "u1" ["g1"], .headroom RA "app1" "u1" ["g1"], .dec RA "app1" [("mem", 2)] "u1" true] := by
+  refine ⟨⟨⟨by decide, by decide, by decide, by decide⟩, fun e he => (by cases he)⟩, trivial, ⟨?_, ?_⟩, trivial⟩
   · show (("u1", ⟨"app1", RA, [("mem", 2)]⟩) : String × Alloc) ∈ [(("u1", ⟨"app1", RA, [("mem", 2)]⟩) : String × Alloc)]
     exact List.mem_cons_self
   · intro _ b hb
